@@ -140,6 +140,9 @@ enum Stage {
     MapWhile(ExprClosure),
     TakeWhile(ExprClosure),
     Enumerate,
+    /// `.copied()` / `.cloned()`: the element by value
+    Copied,
+    Cloned,
 }
 
 #[derive(Clone)]
@@ -341,6 +344,8 @@ impl<'a> R<'a> {
                         ("map_while", 1) => Stage::MapWhile(closure_of(&mc.args[0])?),
                         ("take_while", 1) => Stage::TakeWhile(closure_of(&mc.args[0])?),
                         ("enumerate", 0) => Stage::Enumerate,
+                        ("copied", 0) => Stage::Copied,
+                        ("cloned", 0) => Stage::Cloned,
                         _ => return None,
                     };
                     stages.push(st);
@@ -467,6 +472,15 @@ impl<'a> R<'a> {
                             "if !{{ let {} = &{}; {} }} {{ break; }}\n",
                             pat, cur, b
                         ));
+                    }
+                    Stage::Copied | Stage::Cloned => {
+                        let nx = { mcount += 1; format!("__m{}x{}", k, mcount - 1) };
+                        if matches!(st, Stage::Copied) {
+                            body.push_str(&format!("let {} = *{};\n", nx, cur));
+                        } else {
+                            body.push_str(&format!("let {} = {}.clone();\n", nx, cur));
+                        }
+                        cur = nx;
                     }
                     Stage::Enumerate => {
                         let nx = { mcount += 1; format!("__m{}x{}", k, mcount - 1) };
@@ -1249,7 +1263,11 @@ impl<'r, 'a, 'ast> Visit<'ast> for V<'r, 'a> {
                 let pat = self.r.render_pat(&fl.pat);
                 let ex = self.r.render_expr(&fl.expr);
                 // same signature as the `X.for_each(..)` form of the loop, so that for <-> for_each keeps its ordinal
-                let sig = format!("for_each:{}", norm(self.r.text(fl.expr.span())));
+                let sig_src = match self.r.parse_source(&fl.expr) {
+                    Some(srcs) if srcs.len() == 1 => norm(self.r.text(srcs[0].expr.span())),
+                    _ => norm(self.r.text(fl.expr.span())),
+                };
+                let sig = format!("for_each:{}", sig_src);
                 self.r.loop_sigs.insert(k, sig);
                 let src_norm = norm(self.r.text(fl.expr.span()));
                 if self.r.fc.custom_iters.iter().any(|p| src_norm.starts_with(&norm(p))) {
@@ -1592,7 +1610,9 @@ fn renumber(text: &str, sigs: &HashMap<usize, String>, baseline: &[String]) -> (
         .map(|id| sigs.get(&id.parse::<usize>().unwrap()).cloned().unwrap_or_default())
         .collect();
     let mut ordinals: Vec<usize> = vec![];
-    if baseline.is_empty() {
+    if baseline.is_empty() || baseline.len() == cur_sigs.len() {
+        // same number of loops as in the baseline: the loops are taken to be the same ones, in order (a renamed collection or a
+        // `for` <-> `for_each` change does not move the invariants)
         ordinals = (0..loops.len()).collect();
     } else {
         let mut ptr = 0usize;
